@@ -40,9 +40,9 @@ var gitCmd = &cobra.Command{
 		isFullMessage := cmd.Flag("full").Value.String() == "true"
 		size := gitCmdConfig.Size
 
-		table := cmd_util.NewOutput(output)
-
+		// a table keeps its rows after Render: every section gets a table of its own
 		if cmd.Flag("basic").Value.String() == "true" {
+			table := cmd_util.NewOutput(output)
 			basicSummary := BasicSummary(commitMessages)
 			table.SetHeader([]string{"Statistic", "Number"})
 			table.Append([]string{"Commits", strconv.Itoa(basicSummary.Commits)})
@@ -53,6 +53,7 @@ var gitCmd = &cobra.Command{
 		}
 
 		if cmd.Flag("team").Value.String() == "true" {
+			table := cmd_util.NewOutput(output)
 			teamSummary := GetTeamSummary(commitMessages)
 			table.SetHeader([]string{"EntityName", "RevsCount", "AuthorCount"})
 
@@ -66,6 +67,7 @@ var gitCmd = &cobra.Command{
 		}
 
 		if cmd.Flag("age").Value.String() == "true" {
+			table := cmd_util.NewOutput(output)
 			ages := CalculateCodeAge(commitMessages)
 			var agesDisplay []CodeAgeDisplay
 			for _, info := range ages {
@@ -87,6 +89,7 @@ var gitCmd = &cobra.Command{
 		}
 
 		if cmd.Flag("top").Value.String() == "true" {
+			table := cmd_util.NewOutput(output)
 			authors := GetTopAuthors(commitMessages)
 			table.SetHeader([]string{"Author", "CommitCount", "LineCount"})
 
